@@ -4,6 +4,7 @@ import (
 	"fmt"
 	"go/ast"
 	"go/token"
+	"go/types"
 	"regexp/syntax"
 	"strconv"
 	"strings"
@@ -59,8 +60,83 @@ func (a runeSet) firstBad(ok func(rune) bool) (rune, bool) {
 
 type aliasAbs struct {
 	c     *Ctx
+	F     Facts
 	notes []string
 	nSan  int // sanitising steps recognised
+}
+
+// charSet: the values a byte / rune term may have on this path — every value consistent with the
+// comparisons of that very term with constants among the path's facts.
+func (aa *aliasAbs) charSet(t *T) runeSet {
+	bs := t.String()
+	limit := rune(nRunes)
+	if b, ok := t.Typ.Underlying().(*types.Basic); ok && b.Kind() == types.Uint8 {
+		limit = 256
+	}
+	type test struct {
+		kind string // "lt-left" (t < n), "lt-right" (n < t), "eq"
+		n    int64
+		pol  bool
+	}
+	var tests []test
+	constrained := false
+	for atom, pol := range aa.F {
+		if len(atom) < 5 || atom[len(atom)-1] != ')' {
+			continue
+		}
+		body := atom[3 : len(atom)-1]
+		var kind string
+		var num string
+		switch {
+		case strings.HasPrefix(atom, "lt(") && strings.HasPrefix(body, bs+","):
+			kind, num = "lt-left", body[len(bs)+1:]
+		case strings.HasPrefix(atom, "lt(") && strings.HasSuffix(body, ","+bs):
+			kind, num = "lt-right", body[:len(body)-len(bs)-1]
+		case strings.HasPrefix(atom, "eq(") && strings.HasPrefix(body, bs+","):
+			kind, num = "eq", body[len(bs)+1:]
+		case strings.HasPrefix(atom, "eq(") && strings.HasSuffix(body, ","+bs):
+			kind, num = "eq", body[:len(body)-len(bs)-1]
+		default:
+			continue
+		}
+		n, err := strconv.ParseInt(num, 10, 64)
+		if err != nil {
+			continue
+		}
+		tests = append(tests, test{kind, n, pol})
+		constrained = true
+	}
+	if !constrained {
+		if limit == 256 {
+			out := rsEmpty()
+			for r := rune(0); r < 256; r++ {
+				out[r] = true
+			}
+			return out
+		}
+		return rsAny()
+	}
+	out := rsEmpty()
+	for r := rune(0); r < limit; r++ {
+		ok := true
+		for _, ts := range tests {
+			var v bool
+			switch ts.kind {
+			case "lt-left":
+				v = int64(r) < ts.n
+			case "lt-right":
+				v = ts.n < int64(r)
+			case "eq":
+				v = int64(r) == ts.n
+			}
+			if v != ts.pol {
+				ok = false
+				break
+			}
+		}
+		out[r] = ok
+	}
+	return out
 }
 
 // regexpPattern resolves the term of a *regexp.Regexp to its constant pattern.
@@ -202,6 +278,21 @@ func (aa *aliasAbs) cs(t *T) runeSet {
 	if s, ok := t.strVal(); ok {
 		return rsOfString(s)
 	}
+	if t.Typ != nil && t.Op != "binop" {
+		if b, ok := t.Typ.Underlying().(*types.Basic); ok && (b.Kind() == types.Uint8 || b.Kind() == types.Int32) {
+			// one byte / rune of the text: a byte below 0x80 is that character; bytes from 0x80 up are
+			// pieces of multi-byte runes and are never legal on their own
+			set := aa.charSet(t)
+			if b.Kind() == types.Uint8 {
+				if _, bad := set.firstBad(func(r rune) bool { return r < 0x80 }); bad {
+					aa.notes = append(aa.notes, "byte "+short(t.String(), 60)+" may be ≥ 0x80")
+					return rsAny()
+				}
+			}
+			aa.nSan++
+			return set
+		}
+	}
 	switch t.Op {
 	case "slice":
 		return aa.cs(t.A[0])
@@ -321,7 +412,7 @@ func rulePXRegex(c *Ctx) []Obligation {
 		}
 		R := p.Ret[0]
 		rs := R.String()
-		aa := &aliasAbs{c: c}
+		aa := &aliasAbs{c: c, F: p.Facts}
 		set := aa.cs(R)
 		nSan += aa.nSan
 		bad, isBad := set.firstBad(identRune)
@@ -344,6 +435,25 @@ func rulePXRegex(c *Ctx) []Obligation {
 		if s, ok := R.strVal(); ok {
 			first = s != "" && !unicode.IsDigit([]rune(s)[0])
 		} else {
+			// the leftmost piece of a concatenation decides the first character
+			left := R
+			for left.Op == "binop" && left.Aux == "+" {
+				left = left.A[0]
+			}
+			if left != R {
+				ls := aa.cs(left)
+				if ls != nil {
+					if _, any := rsFilter(ls, unicode.IsDigit).firstBad(func(rune) bool { return false }); !any && knownNonEmpty(left) {
+						first = true
+					}
+				}
+			} else if left.Typ != nil && left.Op != "binop" {
+				if b, ok := left.Typ.Underlying().(*types.Basic); ok && (b.Kind() == types.Uint8 || b.Kind() == types.Int32) {
+					if _, any := rsFilter(set, unicode.IsDigit).firstBad(func(rune) bool { return false }); !any {
+						first = true
+					}
+				}
+			}
 			digits := rsFilter(set, unicode.IsDigit)
 			if set == nil {
 				digits = rsFilter(nil, unicode.IsDigit)
@@ -379,6 +489,7 @@ func rulePXRegex(c *Ctx) []Obligation {
 	}
 	t.require("the guessed name contains only letters and digits", "the guessed name is never empty", "the guessed name does not start with a digit")
 	t.flush()
+	c.checkArityIndependence(o, f)
 	o.req(nSan > 0, fn, "a sanitising step (character-class regexp replacement or strings.Map) is on the returned value's path", f.Pos(), "no sanitising step recognised")
 	return o.list
 }
